@@ -1,6 +1,6 @@
 // Command probe_lockorder (property C15, support for `lock_order_acyclic`): a real in-process broker in delivery mode
 // "overlap" under three concurrent workloads — PUBLISH to 20 subscribers, a SUBSCRIBE storm, and short-lived new
-// connections — for -seconds. Prints `ok ops=<n>` or, when no operation completes for 3 s, `DEADLOCK` (exit 3) with a
+// connections — for -seconds. Prints `ok ops=<n>` or, when no operation completes for 11 s, `DEADLOCK` (exit 3) with a
 // goroutine dump on stderr. On the tree as it was this hits the lock-order cycle
 // TrieDB.RWMutex(R) -> Queue.cond.L -> statsManager.clientMu -> TrieDB.RWMutex(R) within a second or two (findings/c15-f50-*).
 package main
@@ -96,9 +96,14 @@ func main() {
 		time.Sleep(time.Second)
 		p := atomic.LoadInt64(&progress)
 		if p == last {
-			time.Sleep(2 * time.Second)
-			if atomic.LoadInt64(&progress) == p {
-				fmt.Printf("DEADLOCK after %d s: no operation completed for 3 s\n", s)
+			// nothing completed in the last second: give a loaded machine ten more before calling it a deadlock
+			stalled := true
+			for k := 0; k < 10 && stalled; k++ {
+				time.Sleep(time.Second)
+				stalled = atomic.LoadInt64(&progress) == p
+			}
+			if stalled {
+				fmt.Printf("DEADLOCK after %d s: no operation completed for 11 s\n", s)
 				buf := make([]byte, 1<<22)
 				n := runtime.Stack(buf, true)
 				os.Stderr.Write(buf[:n])
